@@ -384,7 +384,7 @@ func concretise(r *rand.Rand, u int, fam string) []netip.Addr {
 // another spelling of the same address (rpc-address flag vs. list entry)
 func respell(a netip.Addr) string {
 	if a.Is4() {
-		return a.String()
+		return "::ffff:" + a.String() // the IPv4-mapped IPv6 literal of an IPv4 address
 	}
 	b := a.As16()
 	var parts []string
@@ -459,7 +459,7 @@ func newCcfg(row *cfgRow, r *rand.Rand) *ccfg {
 	fam := []string{"v4", "v6", "mixed", "mixed"}[r.Intn(4)]
 	c := &ccfg{row: row, fam: fam, tokens: map[string]string{}}
 	c.addrs = concretise(r, u, fam)
-	c.respl = fam != "v4" && r.Intn(4) == 0
+	c.respl = r.Intn(4) == 0
 	names := map[string]bool{}
 	for _, p := range row.Proxies {
 		for _, t := range p.Config.Tokens {
@@ -507,7 +507,7 @@ func newCcfg(row *cfgRow, r *rand.Rand) *ccfg {
 	c.feats = []string{"role=" + role, "dcm=" + row.Dcm, "tokm=" + row.Tokm, "n=" + ncls, "order=" + order,
 		"fam=" + fam, "dse=" + b01(row.DSE)}
 	if c.respl {
-		c.feats = append(c.feats, "rpcspell=expanded")
+		c.feats = append(c.feats, "rpcspell=other") // rpc-address flag spelled differently from the list entry
 	}
 	return c
 }
